@@ -24,6 +24,7 @@ type Replay struct {
 	Picks  []int    `json:"picks"`
 	Ops    []ROp    `json:"ops,omitempty"`
 	Script []Phase  `json:"script,omitempty"`
+	EOps   []EOp    `json:"eops,omitempty"`
 }
 
 // Phase is one element of a scripted (adaptive) schedule: actor A is stepped while it is
@@ -435,6 +436,9 @@ func mkCase(rp Replay, choose func(n int) int, maxSteps int, stream string) (*Ca
 	if rp.Kind == "raw" {
 		return mkRaw(rp)
 	}
+	if strings.HasPrefix(rp.Kind, "e2e-") {
+		return mkE2E(rp.EOps, rp.Kind == "e2e-async", stream)
+	}
 	res, err := runCase(rp.Pre, rp.Progs, rp.Script, rp.Picks, choose, maxSteps)
 	if err != nil {
 		return nil, err
@@ -485,7 +489,7 @@ func mkCase(rp Replay, choose func(n int) int, maxSteps int, stream string) (*Ca
 	}, nil
 }
 
-const rule = "schedules of 1-4 client actors (Write/GetJournal brackets, GetJournalTags brackets, the four Visit flavours with early abort, the real GetJournals with failing journal opens and limits, the real Truncate with deleteJournal/truncateGlobally) over 2-3 tag lines on the real tindex service: a corpus of fixed witnesses, every schedule of <= 6 scheduler steps for 2 actors x 2 partitions for a set of program pairs (then drained round-robin), random schedules up to 60 steps for 3-4 actors, and scripted (adaptive) schedules of the family \"a partition of a waiting visit's snapshot is deleted and its tag line re-created under a new source id while the visit is parked in a callback / blocked on an exclusively locked partition / spinning (Delete and GetOrCreateJournal fused into one observation group)\", continued at random; non-trivial iff >= 4 scheduler steps and (>= 2 actors or a spin, an exclusive lock or a deletion was observed)"
+const rule = "schedules of 1-4 client actors (Write/GetJournal brackets, GetJournalTags brackets, the four Visit flavours with early abort, the real GetJournals with failing journal opens and limits, the real Truncate with deleteJournal/truncateGlobally) over 2-3 tag lines on the real tindex service: a corpus of fixed witnesses, every schedule of <= 6 scheduler steps for 2 actors x 2 partitions for a set of program pairs (then drained round-robin), random schedules up to 60 steps for 3-4 actors, and scripted (adaptive) schedules of the family \"a partition of a waiting visit's snapshot is deleted and its tag line re-created under a new source id while the visit is parked in a callback / blocked on an exclusively locked partition / spinning (Delete and GetOrCreateJournal fused into one observation group)\", continued at random; plus end-to-end sessions on a real in-process server (queries with good and unparsable positions, kept / re-positioned / swept cursors, writes with batches failing on the first record or in the middle, TRUNCATE in its modes, DESCRIBE / SHOW PARTITIONS, pipes, index rebuilds; single-client sessions compared with the model operation by operation, concurrent ones checked at quiescence); non-trivial iff >= 4 scheduler steps and (>= 2 actors or a spin, an exclusive lock or a deletion was observed)"
 
 func main() {
 	Main("C14", "C14K", func(c *Ctx) error {
@@ -528,6 +532,12 @@ func main() {
 		for i := 0; i < c.N(200); i++ {
 			jobs = append(jobs, job{rp: genRaw(c.Rng.Fork()), stream: "raw"})
 		}
+		// fixed raw histories for branches the random ones never take: Release of a partition its
+		// holder has locked exclusively (panic), UnlockExclusively of a partition that is merely held
+		jobs = append(jobs,
+			job{rp: Replay{Kind: "raw", Pre: 0, Ops: []ROp{{K: "acqt", Tag: 0, Create: true}, {K: "lock", P: 0}, {K: "rel", P: 0}}}, stream: "raw"},
+			job{rp: Replay{Kind: "raw", Pre: 1, Ops: []ROp{{K: "acqi", P: 0, Lock: true}, {K: "acqi", P: 0, Lock: true}, {K: "lock", P: 0}, {K: "rel", P: 0}, {K: "lock", P: 0}, {K: "rel", P: 0}}}, stream: "raw"},
+			job{rp: Replay{Kind: "raw", Pre: 1, Ops: []ROp{{K: "acqi", P: 0, Lock: true}, {K: "unlock", P: 0}}}, stream: "raw"})
 		// (generated last: the streams above are the same cases as before this stream existed)
 		for i := 0; i < c.N(150); i++ {
 			r := c.Rng.Fork()
@@ -548,6 +558,49 @@ func main() {
 				return errs[i]
 			}
 			c.Add(*res[i])
+		}
+		// end-to-end sessions on a real in-process server (generated last, see above).  The sync
+		// sessions first: if one of them has a verdict, the concurrent sessions are not run (a panic
+		// of the code under test in a goroutine of the server cannot be recovered by the harness).
+		var sess [][]EOp
+		for _, ops := range e2eCorpus() {
+			sess = append(sess, ops)
+		}
+		ncorp := len(sess)
+		for i := 0; i < c.N(19); i++ {
+			sess = append(sess, genE2EOps(c.Rng.Fork(), false))
+		}
+		var asess [][]EOp
+		for i := 0; i < c.N(6); i++ {
+			asess = append(asess, genE2EOps(c.Rng.Fork(), true))
+		}
+		eres := make([]*Case, len(sess))
+		eerr := make([]error, len(sess))
+		Parallel(len(sess), 4, func(i int) {
+			st := "e2e-sync"
+			if i < ncorp {
+				st = "e2e-corpus"
+			}
+			eres[i], eerr[i] = mkE2E(sess[i], false, st)
+		})
+		failed := false
+		for i := range sess {
+			if eerr[i] != nil {
+				return eerr[i]
+			}
+			c.Add(*eres[i])
+			failed = failed || eres[i].Oracle != nil
+		}
+		if !failed {
+			ares := make([]*Case, len(asess))
+			aerr := make([]error, len(asess))
+			Parallel(len(asess), 3, func(i int) { ares[i], aerr[i] = mkE2E(asess[i], true, "e2e-async") })
+			for i := range asess {
+				if aerr[i] != nil {
+					return aerr[i]
+				}
+				c.Add(*ares[i])
+			}
 		}
 		return c.Finish(rule)
 	})
